@@ -22,13 +22,14 @@ func init() {
 				"(refund) the refunded volume is a copy of WantSell of the very object handed to updateOrders (on every path: the refund and the closing act on the same order, so amounts filled earlier in the block are not refunded — the difference between the stored copy and the live order), in the order's sell coin Coin1, and the same value is reported to the supply checker; the handler credits exactly the (coin, volume) pair returned; ExpireOrders credits order.Owner with the pair returned for that order and skips zero volumes; orders closed for falling below the minimum volume are refunded their remaining WantSell in Coin1 to their Owner; " +
 				"(who) removeLimitOrder is called only by PairRemoveLimitOrder and ExpireOrders, and PairRemoveLimitOrder only by the live handler.",
 			Assumptions: stdAssumptions,
-			Rules:       []string{"C14.owner", "C14.once", "C14.refund", "C14.who"},
+			Rules:       []string{"C14.owner", "C14.once", "C14.refund", "C14.who", "C14.minvol"},
 		},
 		Run: runC14,
 	})
 }
 
 func runC14(c *core.Ctx) {
+	defer checkMinimumVolume(c, "C14.minvol")
 	var m *RunModel
 	for _, lm := range LiveModels(c, "C14.owner") {
 		if lm.H.ConstName == "TypeRemoveLimitOrder" {
@@ -409,4 +410,66 @@ func checkLittle(c *core.Ctx, fn *ssa.Function) {
 		c.Check(good, "C14.refund", key+"/credit", s.Pos(), "AddBalance(limit.Owner, limit.Coin1, copy of limit.WantSell) of one and the same closed order", "the remainder of an order closed for falling below the minimum volume is not refunded to its owner in its sell coin")
 	}
 	c.Check(n == 1, "C14.refund", key+"/shape", fn.Pos(), "one refund per closed order", fmt.Sprintf("%d AddBalance calls (expected one)", n))
+}
+
+// checkMinimumVolume — C14.minvol. After a fill the *remainder* of an order is closed (and
+// refunded) when one of its two sides has dropped below the minimum order volume. Both tests are
+// made on the remainder — the object updateSellOrder returns, the one that is then closed — not
+// on the fill that was just traded: tested on the fill, a dust-sized trade closes a large order,
+// and a remainder below the minimum stays open without a refund. Decided for the live pool module:
+// in every function that compares order sides with minimumOrderVolume, all compared sides are
+// fields of one and the same order object, both sides are compared, and that object is the one
+// handed on as "little".
+func checkMinimumVolume(c *core.Ctx, rule string) {
+	n := 0
+	for _, fn := range c.SrcFuncs(core.PkgState + "/swap") {
+		if fn.Blocks == nil || legacyV1(fn) {
+			continue
+		}
+		type side struct {
+			field string
+			base  ssa.Value
+			pos   token.Pos
+		}
+		var sides []side
+		for _, s := range core.Sites(fn) {
+			if s.Callee != "(*math/big.Int).Cmp" || len(s.Common.Args) != 2 {
+				continue
+			}
+			isMin := core.DependsOn(s.Common.Args[1], func(y ssa.Value) bool {
+				ld, ok := y.(*ssa.UnOp)
+				if !ok {
+					return false
+				}
+				g, ok := ld.X.(*ssa.Global)
+				return ok && g.Name() == "minimumOrderVolume"
+			})
+			if !isMin {
+				continue
+			}
+			ld, ok := core.Unwrap(s.Common.Args[0]).(*ssa.UnOp)
+			if !ok {
+				continue
+			}
+			fa, ok := ld.X.(*ssa.FieldAddr)
+			if !ok {
+				continue
+			}
+			sides = append(sides, side{fieldNameOf(fa), core.Unwrap(fa.X), s.Pos()})
+		}
+		if len(sides) == 0 {
+			continue
+		}
+		n++
+		same, fields := true, map[string]bool{}
+		for _, sd := range sides {
+			fields[sd.field] = true
+			if sd.base != sides[0].base {
+				same = false
+			}
+		}
+		c.Check(same && fields["WantBuy"] && fields["WantSell"], rule, core.ShortFn(fn)+"/minimum-volume", sides[0].pos, "both sides of one and the same order (the remainder) are compared with the minimum order volume",
+			"the minimum-volume test does not compare both sides of one order object: one side is taken from another order (the fill instead of the remainder) — a dust trade can close a large order, and a remainder below the minimum can stay open without its refund")
+	}
+	c.Floor(rule, n, 1, "minimum-order-volume tests in the live pool module")
 }
